@@ -21,6 +21,8 @@ Groups of cases (one forked worker call per case; `g` selects the group):
       a freely chosen digest (prehashed mode) every byte-length class of s (and three classes of
       r) is a genuine signature; plus message-mode signatures whose s lost one / two leading bytes
       (found by walking counter messages); raw and DER must verify under SPSDK.
+  sp  signature providers built from password-protected key files (pass-phrase given / typed at the
+      prompt through a harness seam) x route x hash x padding: must sign like the unencrypted key.
   cl  the nxpcrypto command line on every key: key convert (PEM/DER/RAW, --puk, RAW read back),
       key verify, signature create/verify (hash given or default, NXP/DER, PSS, encrypted key).
 
@@ -1373,8 +1375,146 @@ def w_cli(case: dict) -> dict:
 
 
 # ---------------------------------------------------------------------------------------------
+# group sp: signature providers on password-protected key files (password given / asked for at the prompt)
 
-WORKERS = {"cv": w_conv, "rt": w_roundtrip, "ct": w_cert, "sv": w_sign, "fl": w_flips, "sh": w_shape, "cl": w_cli}
+SP_ROUTES = ("local_file_key", "InteractivePlainFileSP", "sp_cfg:file", "sp_cfg:interactive_file", "cli")
+SP_MODES = ("unencrypted", "given", "prompted")
+
+
+def no_getpass(*a: Any, **k: Any) -> str:
+    raise RuntimeError("the check never answers a terminal prompt")
+
+
+def w_sigprov(case: dict) -> dict:
+    """A key stored with a pass-phrase must sign exactly like the same key stored without one: every route that
+    builds a provider from a key file x pass-phrase {given, typed at the prompt} x hash x padding; the signature
+    must verify under the reference implementation with exactly the configured hash and padding."""
+    import getpass
+
+    import spsdk.crypto.signature_provider as spm
+    from click.testing import CliRunner
+    from cryptography.hazmat.primitives import serialization as ser
+    from spsdk.apps.nxpcrypto import main
+    from spsdk.exceptions import SPSDKError
+
+    name, fenc, seed = case["key"], case["fenc"], case["seed"]
+    k = idx()[name]
+    typ = k["type"]
+    pw = PASSWORDS["p32"]
+    viol: list = []
+    cnt = {"sp_providers": 0, "sp_signatures": 0, "sp_prompts": 0}
+    distinct: list = []
+    agg: dict = {}
+    tried: set = set()
+    answer: dict = {"value": None}
+
+    def fake_prompt() -> str:
+        cnt["sp_prompts"] += 1
+        if answer["value"] is None:
+            raise SPSDKError("no pass-phrase available (verification harness)")
+        return answer["value"]
+
+    tmpdir = tempfile.mkdtemp(prefix="c08-sp-", dir=os.environ.get("VERIF_WORKDIR") or None)
+    saved = (spm.prompt_for_passphrase, getpass.getpass)
+    spm.prompt_for_passphrase = fake_prompt  # the seam tests/crypto/test_sign_provider.py uses; installed before any provider
+    getpass.getpass = no_getpass
+    try:
+        e = ser.Encoding.PEM if fenc == "PEM" else ser.Encoding.DER
+        encf = os.path.join(tmpdir, f"enc.{fenc.lower()}")
+        open(encf, "wb").write(ckey(name).private_bytes(e, ser.PrivateFormat.PKCS8, ser.BestAvailableEncryption(pw.encode("utf-8"))))
+        plainf = fixtures.key_path(name, True, fenc.lower())
+        msg = core.seeded_bytes(seed, f"sp|{name}", 61)
+        msgf = os.path.join(tmpdir, "data.bin")
+        open(msgf, "wb").write(msg)
+        runner = CliRunner()
+        nsig = [0]
+
+        def make(route: str, path: str, mode: str, h: str, pss: bool):
+            """-> (status, signature | message)"""
+            kw: dict = {"hash_alg": henum(h), "pss_padding": pss}
+            if mode == "given":
+                kw["password"] = pw
+            if route == "cli":
+                nsig[0] += 1
+                out = os.path.join(tmpdir, f"s{nsig[0]}.bin")
+                args = ["signature", "create", "-k", path, "-i", msgf, "-o", out, "-a", h, "-e", "NXP"]
+                args += ["-pp"] if pss else []
+                args += ["-p", pw] if mode == "given" else []
+                res = runner.invoke(main, args)
+                if res.exception is not None and not isinstance(res.exception, SystemExit):
+                    return ("spsdk" if isinstance(res.exception, SPSDKError) else type(res.exception).__name__), str(res.exception)[:200]
+                if res.exit_code != 0 or not os.path.exists(out):
+                    return "spsdk", res.output[-200:]
+                return "ok", open(out, "rb").read()
+            if route == "local_file_key":
+                st, sp = call(spm.get_signature_provider, local_file_key=path, **kw)
+            elif route == "InteractivePlainFileSP":
+                st, sp = call(spm.InteractivePlainFileSP, file_path=path, **kw)
+            else:
+                cfg = f"type={route.split(':')[1]};file_path={path}" + (f";password={pw}" if mode == "given" else "")
+                kw.pop("password", None)
+                st, sp = call(spm.get_signature_provider, sp_cfg=cfg, **kw)
+            if st != "ok":
+                return st, sp
+            return call(sp.get_signature, msg)
+
+        schemes = ("v15", "pss") if typ == "rsa" else ("raw",)
+        for mode, path in (("unencrypted", plainf), ("given", encf), ("prompted", encf)):
+            answer["value"] = pw if mode == "prompted" else None
+            for route in SP_ROUTES:
+                if mode == "prompted" and route == "sp_cfg:file":
+                    continue  # the plain file provider has no prompt: refusing an encrypted file without password is right
+                tried.add((route, mode))
+                for h in HASHES:
+                    for scheme in schemes:
+                        cnt["sp_providers"] += 1
+                        distinct.append(f"sp|{name}|{fenc}|{mode}|{route}|{h}|{scheme}")
+                        st, sig = make(route, path, "given" if mode == "given" else "none", h, scheme == "pss")
+                        if st != "ok":
+                            sym = "create-rejected" if st == "spsdk" else f"create:{st}"
+                            agg.setdefault(sym, []).append((route, mode, f"{h}/{scheme}: {sig}"))
+                            continue
+                        cnt["sp_signatures"] += 1
+                        dg = hashlib.new(h, msg).digest()
+                        if ref_verify(name, h, scheme, dg, sig):
+                            continue
+                        # name what was applied instead of the configured parameters
+                        valid = [(h2, s2) for h2 in HASHES for s2 in schemes if ref_verify(name, h2, s2, hashlib.new(h2, msg).digest(), sig)]
+                        if any(h2 != h and s2 == scheme for h2, s2 in valid):
+                            sym = "configured-hash-not-applied"
+                        elif any(h2 == h and s2 != scheme for h2, s2 in valid):
+                            sym = "configured-padding-not-applied"
+                        elif valid:
+                            sym = "configured-hash-and-padding-not-applied"
+                        else:
+                            sym = "signature-not-valid"
+                        agg.setdefault(sym, []).append((route, mode, f"configured {h}/{scheme}, verifies as {valid}"))
+        # a wrong pass-phrase must not produce a provider
+        for mode, fn in (("given", lambda: spm.InteractivePlainFileSP(file_path=encf, password=pw + "x", hash_alg=henum("sha256"))),
+                         ("prompted", lambda: spm.InteractivePlainFileSP(file_path=encf, hash_alg=henum("sha256")))):
+            answer["value"] = pw + "x"
+            st, sp = call(fn)
+            cnt["sp_providers"] += 1
+            if st == "ok":
+                agg.setdefault("wrong-pass-phrase-accepted", []).append(("InteractivePlainFileSP", mode, ""))
+        # one record per symptom; the discriminator names the set of routes and of pass-phrase modes that show it
+        for sym, items in sorted(agg.items()):
+            routes = sorted({r for r, _, _ in items})
+            modes = [m for m in SP_MODES if any(m == mm for _, mm, _ in items)]
+            which = "every-route" if routes == sorted(SP_ROUTES) else "+".join(routes)
+            mwhich = "every-mode" if all((r, m) in {(a, b) for a, b, _ in items} for r, m in tried if r in routes) and len(modes) > 1 \
+                else "+".join(modes)
+            viol.append(("C08.signature-provider-key-file", f"{typ}:{sym}@{which}/{mwhich}",
+                         f"{name} {fenc} key file: " + "; ".join(f"{r} ({m}): {d}" for r, m, d in items[:6])[:1000]))
+    finally:
+        spm.prompt_for_passphrase, getpass.getpass = saved
+        shutil.rmtree(tmpdir, ignore_errors=True)
+    return {"viol": core.dedupe(viol), "count": cnt, "distinct": distinct}
+
+
+# ---------------------------------------------------------------------------------------------
+
+WORKERS = {"cv": w_conv, "rt": w_roundtrip, "ct": w_cert, "sv": w_sign, "fl": w_flips, "sh": w_shape, "cl": w_cli, "sp": w_sigprov}
 
 
 def w_dispatch(case: dict) -> dict:
@@ -1382,6 +1522,9 @@ def w_dispatch(case: dict) -> dict:
     import traceback
 
     logging.getLogger("spsdk").setLevel(logging.ERROR)  # "Signature has unexpected length" warnings are expected
+    import getpass
+
+    getpass.getpass = no_getpass  # no case may ever wait for a terminal
     try:
         return WORKERS[case["g"]](case)
     except (core.HarnessError, core.Watchdog):
@@ -1491,6 +1634,10 @@ def build_cases(tier: str, seed: int) -> list[dict]:
         cases.append({"g": "ct", **t})
     for n in tier_keys("cl", quick):
         cases.append({"g": "cl", "key": n, "seed": seed})
+    # sp: representatives - the first key of each family (quick: one RSA size), both key-file encodings
+    for fam in (("rsa2048",) if quick else ("rsa2048", "rsa3072", "rsa4096")) + ("secp256r1", "secp384r1", "secp521r1"):
+        for fenc in ("PEM", "DER"):
+            cases.append({"g": "sp", "key": key_names(fam)[0], "fenc": fenc, "seed": seed})
     # sv
     for n in tier_keys("sv", quick):
         k = idx()[n]
@@ -1541,6 +1688,11 @@ def run(ctx: core.Ctx) -> None:
         "leading bytes; [cl] nxpcrypto on every key: key convert x source {private, public} x {PEM, DER} x target {PEM, DER, RAW} "
         "x --puk, RAW read back, key verify, signature create x {default, explicit hash} x {NXP, DER | v1.5, PSS} x key file "
         "{PEM, DER, password-protected} + signature verify on {same, flipped data, other key}; "
+        "[sp] signature providers on password-protected key files (first key of each family; thorough: every RSA size): "
+        "key file {PEM, DER} x pass-phrase {given, typed at the prompt (harness seam on prompt_for_passphrase; getpass disabled)} "
+        "+ the unencrypted file as base line x route {get_signature_provider(local_file_key), InteractivePlainFileSP, "
+        "get_signature_provider(sp_cfg type=file), (sp_cfg type=interactive_file), nxpcrypto signature create -k} x every hash x {v1.5, PSS | ECDSA}: "
+        "the signature must verify under the reference with exactly the configured hash and padding; wrong pass-phrase refused; "
         "[cv] every (len r, msb r, len s, msb s) class per curve through ECDSASignature.get_encoding/parse/"
         "export, the constructor, serialize_signature and SignatureProvider.get_signature x provider output {DER, raw} x "
         "requested {default, NXP, DER}. A case is distinct/non-trivial when it is a different point of these products that "
@@ -1556,7 +1708,7 @@ def run(ctx: core.Ctx) -> None:
     for c in cases:
         per_group[c["g"]] = per_group.get(c["g"], 0) + 1
     ctx.cov["cases_per_group"] = per_group
-    for g in ("cv", "sh", "fl", "rt", "ct", "cl", "sv"):
+    for g in ("cv", "sh", "fl", "rt", "ct", "cl", "sp", "sv"):
         for c in cases:
             if c["g"] == g:
                 ctx.sample(c)
@@ -1567,7 +1719,7 @@ def run(ctx: core.Ctx) -> None:
     done: dict = {}
     # The determinism double-run covers the head of the queue (cv cases: fully deterministic).  SPSDK-made ECDSA/PSS
     # signatures are random (DESIGN 1.2: not owned); an sv/cl record that carries such bytes is not double-run.
-    det = 3 if cases and cases[0]["g"] not in ("sv", "cl") else 0
+    det = 3 if cases and cases[0]["g"] not in ("sv", "cl", "sp") else 0
     for case, res in ctx.pool_map(w_dispatch, cases, timeout=300, chunksize=1, check_det=det):
         rec = case
         if isinstance(res, dict) and res.get("aux"):
@@ -1582,7 +1734,7 @@ def run(ctx: core.Ctx) -> None:
     c = ctx.counters
     ctx.cov["distinct_nontrivial"] = (len(ctx.distinct) + c.get("cv_classes", 0) + c.get("fl_flips", 0)
                                       + c.get("sh_signatures", 0) * 2 + c.get("sv_negative", 0))
-    ctx.cov["evaluations"] = (c.get("cv_calls", 0) + c.get("rt_entry_points", 0) + c.get("ct_parses", 0) + c.get("cl_invocations", 0)
+    ctx.cov["evaluations"] = (c.get("cv_calls", 0) + c.get("rt_entry_points", 0) + c.get("ct_parses", 0) + c.get("cl_invocations", 0) + c.get("sp_providers", 0)
                               + c.get("ct_validations", 0) + c.get("sv_verifications", 0) + c.get("sv_negative", 0)
                               + c.get("fl_flips", 0) + c.get("sh_verifications", 0) * 2)
     ctx.cov["dimensions"] = {
